@@ -3,6 +3,7 @@ import Plotink.Proofs.C05Script
 import Plotink.Proofs.C05Conf
 import Plotink.Proofs.C05FailRep
 import Plotink.Model.Ebb3Params
+import Plotink.Proofs.Ebb3GenLift
 
 /-! # C05 — EBB3 command/query framing and fault handling
 
@@ -243,6 +244,136 @@ or `name,1,1` -/
 theorem C05_conforming_exists (P : Params) : Conforming P demoReply := demo_conforming P
 
 example : ConfInv ⟨{ St.init with port := true }, ⟨[], 0⟩, [], 0⟩ := ⟨rfl, fun _ => rfl⟩
+
+/-! ## The same theorems about the *regenerated* code  (see the note in `Props/C04.lean`)
+
+`Gen.EBB3_command` / `Gen.EBB3_query` and the other methods of the bridged set **S** (`Ebb3Gen.inS`: 36 of the 38
+public methods — every request method, `record_error`, `disconnect`, `parse_version`, `min_version`), run by
+`Ebb3Gen.genRun`; `Ebb3Gen.Good w` is the domain; `Ebb3Gen.absWorld w` is what the model sees of a world of the
+regenerated code (attributes, script without exception classes, bytes written, read count). -/
+
+open Ebb3Gen in
+/-- **Framing (regenerated code).** On a connected, error-free object the regenerated `command(req)` and `query(req)`
+return, hand exactly one text to `write` — the trimmed request followed by one carriage return —, and call `readline`
+exactly `usedReads (1 + retry)` times (at most `1 + retry`; nothing if the write raised), leaving the rest of the
+script untouched. -/
+theorem C05_gen_frame (fuel : Nat) (hf : 26 ≤ fuel) (req name : Str) (hasc : PyIO.isAscii req = true)
+    (hn : cmdName (strip req) = .ok name) (hne : name ≠ []) (w : PyObj.World Gen.EBB3_Obj) (hg : Good w)
+    (hp : w.obj.port = .port) (he : w.obj.err = .none) :
+    let aw := absWorld w
+    let uc := usedReads (srcParams.retryCmd + 1) (firstWrite aw.dev) aw.dev.reads
+    let uq := usedReads (srcParams.retryQry + 1) (firstWrite aw.dev) aw.dev.reads
+    (∃ v w', Gen.EBB3_command fuel (.str req) w = .val v w' ∧
+      w'.port.log = w.port.log ++ [strip req ++ ['\r']] ∧ w'.port.nread = w.port.nread + uc ∧
+      uc ≤ srcParams.retryCmd + 1 ∧ (absWorld w').dev = ⟨aw.dev.reads.drop uc, aw.dev.writes.tail⟩) ∧
+    (∃ v w', Gen.EBB3_query fuel (.str req) w = .val v w' ∧
+      w'.port.log = w.port.log ++ [strip req ++ ['\r']] ∧ w'.port.nread = w.port.nread + uq ∧
+      uq ≤ srcParams.retryQry + 1 ∧ (absWorld w').dev = ⟨aw.dev.reads.drop uq, aw.dev.writes.tail⟩) := by
+  intro aw uc uq
+  obtain ⟨w1, h1, h2, -⟩ := command_gen_exact fuel hf req name hasc hn hne w hg hp he
+  obtain ⟨w2, h3, h4, -⟩ := query_gen_exact fuel hf req name hasc hn hne w hg hp he
+  exact ⟨⟨_, w1, h1, congrArg (·.out) h2, congrArg (·.nreads) h2, usedReads_le _ _ _, congrArg (·.dev) h2⟩,
+    ⟨_, w2, h3, congrArg (·.out) h4, congrArg (·.nreads) h4, usedReads_le _ _ _, congrArg (·.dev) h4⟩⟩
+
+open Ebb3Gen in
+/-- **Success iff (regenerated code).** The regenerated `command` returns `True` exactly when no error is recorded,
+which is when `Spec.commandError … = none` (see `C05_success_iff` for what that means: write ok and an accepted
+reply — or an ignored I/O fault for `rb`/`r`/`bl`); otherwise `err` becomes that message and `False` is returned.
+The regenerated `query` returns `Spec.queryValue` (a string exactly when `Spec.queryError … = none`) and records
+`Spec.queryError`. -/
+theorem C05_gen_success_iff (fuel : Nat) (hf : 26 ≤ fuel) (req name : Str) (hasc : PyIO.isAscii req = true)
+    (hn : cmdName (strip req) = .ok name) (hne : name ≠ []) (w : PyObj.World Gen.EBB3_Obj) (hg : Good w)
+    (hp : w.obj.port = .port) (he : w.obj.err = .none) :
+    let aw := absWorld w
+    let ce := commandError srcParams (strip req) name (firstWrite aw.dev) aw.dev.reads
+    let qe := queryError srcParams (strip req) name (firstWrite aw.dev) aw.dev.reads
+    (∃ w', Gen.EBB3_command fuel (.str req) w = .val (.bool ce.isNone) w' ∧
+      w'.obj.err = encReq ce ∧
+      (ce = Option.none ↔ (firstWrite aw.dev = .ok ∧ accepted name (firstReply (srcParams.retryCmd + 1) aw.dev.reads) = true) ∨
+        ((firstWrite aw.dev = .raise ∨ firstReply (srcParams.retryCmd + 1) aw.dev.reads = .ioError) ∧
+          lower name ∈ srcParams.ignoreCmd))) ∧
+    (∃ w', Gen.EBB3_query fuel (.str req) w =
+        .val (encVal (queryValue srcParams (strip req) name (firstWrite aw.dev) aw.dev.reads)) w' ∧
+      w'.obj.err = encReq qe ∧
+      (qe = Option.none ↔ firstWrite aw.dev = .ok ∧ accepted name (firstReply (srcParams.retryQry + 1) aw.dev.reads) = true) ∧
+      (qe = Option.none ↔ ∃ s, queryValue srcParams (strip req) name (firstWrite aw.dev) aw.dev.reads = .str s)) := by
+  intro aw ce qe
+  obtain ⟨w1, h1, h2, hg1⟩ := command_gen_exact fuel hf req name hasc hn hne w hg hp he
+  obtain ⟨w2, h3, h4, hg2⟩ := query_gen_exact fuel hf req name hasc hn hne w hg hp he
+  have hm := C05_success_iff srcParams req name hn hne (absWorld w) (ready_of_attrs w hp he)
+  exact ⟨⟨w1, h1, err_of_absSt hg1.obj (congrArg (·.st) h2), hm.1.2.2⟩,
+    ⟨w2, h3, err_of_absSt hg2.obj (congrArg (·.st) h4), hm.2.2.2.1, hm.2.2.2.2⟩⟩
+
+open Ebb3Gen in
+/-- **Query value (regenerated code).** A successful regenerated `query` returns the reply with the name and one
+separating comma removed. -/
+theorem C05_gen_query_value (fuel : Nat) (hf : 26 ≤ fuel) (req name : Str) (hasc : PyIO.isAscii req = true)
+    (hn : cmdName (strip req) = .ok name) (hne : name ≠ []) (w : PyObj.World Gen.EBB3_Obj) (hg : Good w)
+    (hp : w.obj.port = .port) (he : w.obj.err = .none)
+    (hok : queryError srcParams (strip req) name (firstWrite (absWorld w).dev) (absWorld w).dev.reads = Option.none) :
+    ∃ rest w', firstReply (srcParams.retryQry + 1) (absWorld w).dev.reads = .text (name ++ rest) ∧
+      Gen.EBB3_query fuel (.str req) w = .val (.str (dropComma rest)) w' := by
+  obtain ⟨w2, h3, -, -⟩ := query_gen_exact fuel hf req name hasc hn hne w hg hp he
+  obtain ⟨rest, hr, hv⟩ := C05_query_value srcParams req name hn hne (absWorld w) (ready_of_attrs w hp he) hok
+  have hm := (C05_success_iff srcParams req name hn hne (absWorld w) (ready_of_attrs w hp he)).2.1
+  rw [hm] at hv
+  injection hv with hv
+  refine ⟨rest, w2, hr, ?_⟩
+  rw [h3, hv]
+  rfl
+
+open Ebb3Gen in
+/-- **No request method of S raises (regenerated code).** For every call of a request method of S with in-domain
+arguments, every `Good` world whose script (as the model sees it) is drawn from the fault alphabet (`AdmScript`): the
+regenerated method returns a value — no exception, no fuel exhaustion —, and the world it leaves is `Good` with a
+script still in the alphabet. -/
+theorem C05_gen_no_raise (fuel : Nat) (c : Call) (hc : Covered fuel c) (hr : c.method.isRequest = true) (hd : c.InDomain)
+    (w : PyObj.World Gen.EBB3_Obj) (hg : Good w) (hp : Pre c w) (ha : AdmScript (absWorld w)) :
+    ∃ v w', genRun fuel c w = .val v w' ∧ Good w' ∧ AdmScript (absWorld w') := by
+  obtain ⟨v, aw', hrun, hadm⟩ := C05_no_raise srcParams c hr hd (absWorld w) ha
+  have hs := gen_bridge fuel c hc w hg hp
+  rw [hrun] at hs
+  obtain ⟨w', h1, h2, h3⟩ := sim_val hs
+  exact ⟨_, w', h1, h3, by rw [h2]; exact hadm⟩
+
+open Ebb3Gen in
+/-- the same along any history of in-domain request calls of S: the history runs to its end and no call raises -/
+theorem C05_gen_no_raise_history (fuel : Nat) : ∀ (cs : List Call) (w : PyObj.World Gen.EBB3_Obj),
+    (∀ c ∈ cs, Covered fuel c ∧ c.method.isRequest = true ∧ c.InDomain) → Good w → HistPre fuel cs w →
+    AdmScript (absWorld w) →
+    (genCalls fuel cs w).length = cs.length ∧ ∀ o ∈ genCalls fuel cs w, ∃ v w', o = .val v w'
+  | [], _, _, _, _, _ => ⟨rfl, fun o ho => by simp [genCalls] at ho⟩
+  | c :: cs, w, hc, hg, hp, ha => by
+    obtain ⟨hc1, hr1, hd1⟩ := hc c List.mem_cons_self
+    obtain ⟨v, w', h1, hg', ha'⟩ := C05_gen_no_raise fuel c hc1 hr1 hd1 w hg hp.1 ha
+    have ih := C05_gen_no_raise_history fuel cs w' (fun c' hc' => hc c' (List.mem_cons_of_mem _ hc')) hg'
+      (hp.2 w' (by rw [h1]; rfl)) ha'
+    simp only [genCalls, h1, outWorld, List.length_cons, List.mem_cons]
+    refine ⟨by rw [ih.1], fun o ho => ?_⟩
+    rcases ho with rfl | ho
+    · exact ⟨v, w', rfl⟩
+    · exact ih.2 o ho
+
+open Ebb3Gen in
+/-- **A recorded error is reported by the failure value (regenerated code).** If a regenerated request method of
+S returns a value and an error is recorded afterwards, the value is `False`, `None` or `(None, None)`. -/
+theorem C05_gen_fail_reported (fuel : Nat) (c : Call) (hc : Covered fuel c) (hr : c.method.isRequest = true)
+    (w : PyObj.World Gen.EBB3_Obj) (hg : Good w) (hp : Pre c w) (v : PyObj.Val) (w' : PyObj.World Gen.EBB3_Obj)
+    (h : genRun fuel c w = .val v w') (e : Str) (he : w'.obj.err = .str e) :
+    v = .bool false ∨ v = .none ∨ v = .tuple [.none, .none] := by
+  have hs := gen_bridge fuel c hc w hg hp
+  rw [h] at hs
+  rcases hm : run srcParams scriptDev c (absWorld w) with ⟨res, aw'⟩
+  rw [hm] at hs
+  cases res with
+  | error ex => exact hs.elim
+  | ok v' =>
+    obtain ⟨h1, h2, -⟩ := hs
+    have herr : aw'.st.err.isSome = true := by
+      rw [← h2]; simp [absWorld, absSt, he, absOpt]
+    have := run_failRep srcParams scriptDev c hr (absWorld w) v' aw' hm herr
+    rw [h1]
+    exact encVal_failure this
 
 /-- the constants of the statement, as read from the current source: 25 extra reads in both
 primitives; I/O errors ignored only for `rb`, `r`, `bl` -/
